@@ -116,6 +116,32 @@ def _bind_call(fi, ev):
     return out
 
 
+_CF_CACHE = {}
+
+
+def _constflow_junction_test(ix, c):
+    """the row selector of the reported mass flow contains `junction isin <labels of the hydraulically active junctions>`
+    (whole-function terms of extract_results: no local names involved)"""
+    f = ix.lookup_method(c, "extract_results")
+    k_ = (id(ix), f.qualname)
+    if k_ in _CF_CACHE:
+        return _CF_CACHE[k_]
+    ps = f.params()
+    r = ANF(ix, f, param_alias={ps[0]: "cls", ps[1]: "net"}).run()
+    G = expect(ix, f, "get_lookup(net, 'node', 'from_to')[cls.get_connected_node_type().table_name()]", env={"net": ("n", "net"), "cls": ("n", "cls")})
+    want = expect(ix, f, "np.isin(net[cls.table_name()].junction.values, "
+                         "net['_pit']['node'][G[0]:G[1], :][get_lookup(net, 'node', 'active_hydraulics')[G[0]:G[1]], ELEMENT_IDX])",
+                  env={"net": ("n", "net"), "cls": ("n", "cls"), "G": G})
+    ok = False
+    for e in r.stores():
+        b = e.base
+        if b[0] == "attr" and b[2] == "values" and len(e.index) == 1:
+            if any(key(x) == key(want) for x in conjuncts(e.index[0])):
+                ok = True
+    _CF_CACHE[k_] = ok
+    return ok
+
+
 def r4_1(run):
     ix = run.index
     f = ix.func(RE_ + ".extract_results_active_pit")
@@ -248,7 +274,7 @@ def r4_2(run):
                         elif is_cf:
                             tbl = ix.method_const(c, "table_name")
                             ins = b_ne0(Poly.sym("tbl", tbl, "in_service"))
-                            ok = (sel & ~ins).is_false() and any("isin" in str(a) and "nodes_connected_hyd" in str(a) for a in sel.atoms())
+                            ok = (sel & ~ins).is_false() and _constflow_junction_test(ix, c)
                             run.ob(key + "|in-service-and-junction-active", ok,
                                    "res_%s.%s is written only for in-service rows at hydraulically active junctions" % (tbl, wv["column"]),
                                    where, detail=str(sel)[:200])
